@@ -456,6 +456,7 @@ for _id, _prop, _rule, _desc, _eb in [
     ("c07-switch-case-swapped", "C07", "R07.4", "read_int per-width switch (C20i/3) whose 2-byte case swaps the bytes", False),
     ("c12-worker2-clear-before-export", "C12", "R12.4", "exporter flush path over two workers (C12k/2) whose flush_block clears the block before exporting it", False),
     ("c12-worker2-no-rearm", "C12", "R12.1", "exporter flush path over two workers (C12k/2) where buffer_mm exports without clearing and re-arming", False),
+    ("c06-switch-store-swapped", "C06", "R06.1", "write_int storing through a pointer to the last byte in a fall-through switch (C02k/2) with two bytes swapped", False),
     ("c14-result-unchecked", "C14", "R14.3", "compressor step reporting through a result struct (C14i/2) whose failure flag write() ignores", False),
     ("c14-result-ok-on-error", "C14", "R14.3", "compressor step reporting through a result struct (C14i/2) that says ok for a refused code", False),
     ("c06-flush-guard-inverted", "C06", "R06.4", "flush_buffer writes only when nothing is staged", False),
@@ -478,9 +479,6 @@ NEUTRAL_UNRECOGNISED = {
     # a new encoder primitive that writes a whole index list in runs whose length is computed from m_avail by a division: the
     # emission grammar does not know the primitive and R06.2 does not decide the computed reservation - C01, C02, C06 exit 2
     # (neutral round 9)
-    # write_int rebuilt as head-shape selection, one room test and a fall-through store switch through a pointer to the last byte:
-    # the cell-wise partial evaluation of R06.1 / R06.4 does not follow stores through a computed pointer - C01, C06, C15, C16 exit 2
-    "C02k/refactor2.diff": "write_int with a fall-through store switch through a computed pointer",
     # cdns-merge's index table behind a BlockIndexRemapper class with a one-entry look-aside: R18.1 / R18.2 do not expand translate()
     "C18k/refactor2.diff": "BlockIndexRemapper with a look-aside in cdns-merge",
     "C10j/refactor1.diff": "CdnsEncoder::write_array in runs sized by m_avail / MAX_INDEX_SIZE",
